@@ -55,10 +55,13 @@ def gen_procs(rng, tier):
                 calls.append((rng.choice(["execve", "execv"]), path, argv))
             # error logging on in a third of the processes, with a format whose pieces get refused at the small limits
             el = rng.random() < 0.34
-            fmt = rng.choice([b"%{cmdline}", b"pre-%{cmdline}-post", b"%{snoopy_literal:" + b"L" * 200 + b"}%{cmdline}%{filename}"]) if el else b"%{cmdline}"
-            if el:
+            # several refusable pieces per message, with error logging on AND off (off: no error record may appear, however many appends are refused)
+            multi = el or rng.random() < 0.3
+            fmt = rng.choice([b"%{cmdline}", b"pre-%{cmdline}-post", b"%{snoopy_literal:" + b"L" * 200 + b"}%{cmdline}%{filename}%{cmdline}"]) if multi else b"%{cmdline}"
+            if multi:
                 llog = rng.choice([255, 255, 1000])
-            procs.append({"out": o, "arg": arg, "fac": fac, "lvl": lvl, "ident": ident, "chain": chain, "llog": llog, "calls": calls, "el": el, "fmt": fmt})
+            procs.append({"out": o, "arg": arg, "fac": fac, "lvl": lvl, "ident": ident, "chain": chain, "llog": llog, "calls": calls, "el": el, "fmt": fmt,
+                          "stdin_closed": (o in ("file", "devtty", "devnull", "socket", "devlog") and r == reps - 1)})
     return procs
 
 
@@ -93,7 +96,8 @@ def check(run):
 
     def job(i):
         p = procs[i]
-        script = list(SINKS) + ["ini\t" + hexs(ini_of(p)), "env\t" + hexlist([b"PATH=/bin"])]
+        # some processes run with descriptor 0 closed: the output's own open()/socket() then returns 0
+        script = list(SINKS) + (["stdin\tclosed"] if p.get("stdin_closed") else []) + ["ini\t" + hexs(ini_of(p)), "env\t" + hexlist([b"PATH=/bin"])]
         for (api, path, argv) in p["calls"]:
             script.append(call_line(api, path, argv, [] if api == "execve" else None, 0, -1, 2))
         # the last call of each process is a simulated successful exec (what is not handed to the OS by then is lost)
@@ -196,7 +200,7 @@ def check(run):
         if why:
             run.violation("record:%s:%s" % (p["out"], why.split(" ")[0] + "-" + why.split(" ")[1]), "spec_violation",
                           "%s (output %s, call %d%s)" % (why, p["out"], k, ", simulated successful exec" if last else ""),
-                          {"failing_input": {"config": ini_of(p).decode(errors="replace"), "call": script[len(SINKS) + 2 + k][:300], "call_index": k},
+                          {"failing_input": {"config": ini_of(p).decode(errors="replace"), "call": script[len(script) - len(p["calls"]) + k][:300], "call_index": k},
                            "script": script, "call_index": k, "expected": {s: [x[:200] for x in v] for s, v in expected.items()},
                            "observed": {s: [x[:200] for x in v] for s, v in got.items()}, "late": late})
     # ---- whole-run stream: generated snoopy.ini x calls, composed model (System/Compose.v) vs production wrapper
